@@ -460,6 +460,19 @@ Definition mut_parafac2_to_slices : cmd := p2_slices_body (InplaceOp 13 2).  (* 
 Definition sk_cp_plsr_fit : cmd := seq [ Copy 10 0; Copy 11 1; InplaceOp 10 2; InplaceOp 11 2; Alloc 12 2; InplaceOp 10 3 ].
 Definition mut_cp_plsr_fit : cmd := seq [ Rebind 10 0; Copy 11 1; InplaceOp 10 2; InplaceOp 11 2; Alloc 12 2; InplaceOp 10 3 ].
 
+(* --- CPTensor.normalize() / TuckerTensor.normalize(): mutator methods, self = 0 is documented as modified
+       ("the tensor modifies itself"):  self.weights, self.factors = cp_normalize(self) *)
+Definition sk_cp_normalize_method : cmd := seq [
+  Call 20 sk_cp_normalize [0] 18; ListGet 21 20 0; ListGet 22 20 1; ListSet 0 0 21; ListSet 0 1 22 ].
+Definition sk_tucker_normalize : cmd := seq [   (* tucker_tensor = 0 *)
+  ListGet 10 0 0; ListGet 11 0 1; ListNew 12 [];
+  ListGet 13 11 0; Alloc 14 2; Alloc 10 4; Alloc 15 2; ListAppend 12 15;
+  ListGet 13 11 1; Alloc 14 2; Alloc 10 4; Alloc 15 2; ListAppend 12 15;
+  ListGet 13 11 2; Alloc 14 2; Alloc 10 4; Alloc 15 2; ListAppend 12 15;
+  ListNew 18 [10; 12] ].
+Definition sk_tucker_normalize_method : cmd := seq [
+  Call 20 sk_tucker_normalize [0] 18; ListGet 21 20 0; ListGet 22 20 1; ListSet 0 0 21; ListSet 0 1 22 ].
+
 (* a concrete caller heap used by the examples: a tensor, a CP initialisation (weights, [A, B, C]) whose
    B is a transposed view, a fixed_modes list and a mask *)
 Definition demo_heap : heap := [
